@@ -523,6 +523,131 @@ func (g *c17Gen) optionRule() (string, map[string]any) {
 	}
 }
 
+type scenRule struct {
+	goPass    bool // false: language "all" pass, true: the target language's pass (runs after every "all" rule)
+	isBuilder bool
+	rule      map[string]any
+}
+
+// scenario: cooperating rule sequences in which a later rule selects the PRODUCT of an earlier one and
+// only it (or only the original), common rules followed by language-specific ones. These are the
+// sequences on which forgotten members of copies, shared pointers and partially promoted options show.
+func (g *c17Gen) scenario() (string, []scenRule) {
+	b := g.builder()
+	if b == nil || len(b.Options) == 0 {
+		return "", nil
+	}
+	pkg := b.Package
+	resolvesTo := func(t ast.Type, pred func(ast.Type) bool) bool {
+		r, st := c16Resolve(g.schemas, t)
+		return st == "ok" && pred(r)
+	}
+	isStructArg := func(t ast.Type) bool { return isRealStruct(t) || (t.Kind == ast.KindRef && resolvesTo(t, isRealStruct)) }
+	byName := func(bn, on string) map[string]any { return map[string]any{"by_builder": bn + "." + on} }
+	objSel := func(on string) map[string]any { return map[string]any{"by_name": b.For.Name + "." + on} }
+	later := g.r.chance(50) // the follow-up rule in the language-specific pass
+	follow := func(sel map[string]any, o *ast.Option) map[string]any {
+		switch g.r.intn(7) {
+		case 0:
+			n := 1
+			if o != nil {
+				n = len(o.Args)
+			}
+			as := []string{}
+			for i := 0; i < n; i++ {
+				as = append(as, pick(g.r, []string{"x", "y", "val"}))
+			}
+			return map[string]any{"rename_arguments": merge(sel, map[string]any{"as": as})}
+		case 1:
+			return map[string]any{"array_to_append": sel}
+		case 2:
+			return map[string]any{"map_to_index": sel}
+		case 3:
+			return map[string]any{"unfold_boolean": merge(sel, map[string]any{"true_as": "on", "false_as": "off"})}
+		case 4:
+			return map[string]any{"struct_fields_as_arguments": sel}
+		case 5:
+			return map[string]any{"struct_fields_as_options": sel}
+		}
+		return map[string]any{"rename_arguments": merge(sel, map[string]any{"as": []string{"renamedArg"}})}
+	}
+	switch g.r.intn(9) {
+	case 0: // option duplicate, then a rule on the copy only / on the original only
+		o := g.optionOf(b, nil)
+		first := scenRule{rule: map[string]any{"duplicate": merge(objSel(o.Name), map[string]any{"as": "dupOf" + o.Name})}}
+		target := "dupOf" + o.Name
+		if g.r.chance(35) {
+			target = o.Name
+		}
+		return pkg, []scenRule{first, {goPass: later, rule: follow(objSel(target), o)}}
+	case 1: // struct_fields_as_arguments, then promote the (now multi-argument) option
+		o := g.optionOf(b, isStructArg)
+		return pkg, []scenRule{{rule: map[string]any{"struct_fields_as_arguments": objSel(o.Name)}},
+			{goPass: true, isBuilder: true, rule: map[string]any{"promote_options_to_constructor": map[string]any{"by_object": b.For.Name, "options": []string{o.Name}}}}}
+	case 2: // map_to_index / array_to_append, then something that looks at the rewritten option
+		o := g.optionOf(b, func(t ast.Type) bool { return t.Kind == ast.KindMap || t.Kind == ast.KindArray })
+		key := "map_to_index"
+		if len(o.Args) > 0 && o.Args[0].Type.Kind == ast.KindArray {
+			key = "array_to_append"
+		}
+		second := scenRule{goPass: later, rule: follow(objSel(o.Name), o)}
+		if g.r.chance(30) {
+			second = scenRule{goPass: true, isBuilder: true, rule: map[string]any{"promote_options_to_constructor": map[string]any{"by_object": b.For.Name, "options": []string{o.Name}}}}
+		}
+		return pkg, []scenRule{{rule: map[string]any{key: objSel(o.Name)}}, second}
+	case 3: // builder duplicate, then an option rule on the copy's option only
+		o := g.optionOf(b, nil)
+		return pkg, []scenRule{{isBuilder: true, rule: map[string]any{"duplicate": map[string]any{"by_object": b.For.Name, "as": b.Name + "Copy"}}},
+			{goPass: later, rule: follow(byName(b.Name+"Copy", o.Name), o)}}
+	case 4: // add_assignment using the option's argument, then a rule that rewrites the argument
+		o := g.optionOf(b, nil)
+		p, _ := g.path(b)
+		var arg map[string]any
+		if len(o.Args) > 0 {
+			if yt, ok := yamlType(o.Args[0].Type); ok {
+				arg = map[string]any{"name": o.Args[0].Name, "type": yt}
+			}
+		}
+		val := map[string]any{"constant": 1}
+		if arg != nil {
+			val = map[string]any{"argument": arg}
+		}
+		return pkg, []scenRule{{rule: map[string]any{"add_assignment": merge(objSel(o.Name), map[string]any{"assignment": map[string]any{"path": p, "method": "direct", "value": val}})}},
+			{goPass: later, rule: follow(objSel(o.Name), o)}}
+	case 5: // promote, then a rule that rewrites the promoted option's argument
+		o := g.optionOf(b, nil)
+		return pkg, []scenRule{{isBuilder: true, rule: map[string]any{"promote_options_to_constructor": map[string]any{"by_object": b.For.Name, "options": []string{o.Name}}}},
+			{goPass: later, rule: follow(objSel(o.Name), o)}}
+	case 6: // members added to a builder, then the builder is duplicated (language pass)
+		var first map[string]any
+		switch g.r.intn(3) {
+		case 0:
+			first = map[string]any{"properties": map[string]any{"by_object": b.For.Name, "set": []any{map[string]any{"name": "prop", "type": yamlScalar("string")}}}}
+		case 1:
+			first = map[string]any{"add_factory": map[string]any{"by_object": b.For.Name, "factory": map[string]any{"name": "New" + b.Name, "options": []any{}}}}
+		default:
+			p, t := g.path(b)
+			first = map[string]any{"initialize": map[string]any{"by_object": b.For.Name, "set": []any{map[string]any{"property": p, "value": g.constantFor(t)}}}}
+		}
+		return pkg, []scenRule{{isBuilder: true, rule: first},
+			{goPass: later, isBuilder: true, rule: map[string]any{"duplicate": map[string]any{"by_object": b.For.Name, "as": b.Name + "Copy"}}}}
+	case 7: // merge_into, then a rule on the merged option (selected through the destination only)
+		src := g.builder()
+		o := g.optionOf(src, nil)
+		if o == nil {
+			return "", nil
+		}
+		under, _ := g.path(b)
+		return pkg, []scenRule{{isBuilder: true, rule: map[string]any{"merge_into": map[string]any{"destination": b.Name, "source": src.Name, "under_path": under}}},
+			{goPass: later, rule: follow(objSel(o.Name), o)}}
+	default: // option duplicate in the common pass, rename of the copy in the language pass, then a rule on the renamed copy
+		o := g.optionOf(b, nil)
+		return pkg, []scenRule{{rule: map[string]any{"duplicate": merge(objSel(o.Name), map[string]any{"as": "twin"})}},
+			{goPass: true, rule: map[string]any{"rename": merge(objSel("twin"), map[string]any{"as": "twinRenamed"})}},
+			{goPass: true, rule: follow(objSel("twinRenamed"), o)}}
+	}
+}
+
 // genVeneerFiles: 1-3 files; the rules of a file share the package of the first rule drawn for it.
 func genVeneerFiles(r *rng, schemas ast.Schemas, bs []ast.Builder, tier string) (string, []vFile) {
 	g := &c17Gen{r: r, schemas: schemas, bs: bs, focus: -1}
@@ -530,6 +655,30 @@ func genVeneerFiles(r *rng, schemas ast.Schemas, bs []ast.Builder, tier string) 
 		g.focus = r.intn(len(bs))
 	}
 	language := "go"
+	if r.chance(35) {
+		if pkg, rules := g.scenario(); len(rules) > 0 {
+			files := []vFile{{Language: "all", Package: pkg}, {Language: "go", Package: pkg}}
+			for _, sr := range rules {
+				f := &files[0]
+				if sr.goPass {
+					f = &files[1]
+				}
+				if sr.isBuilder {
+					f.Builders = append(f.Builders, sr.rule)
+				} else {
+					f.Options = append(f.Options, sr.rule)
+				}
+			}
+			// sometimes one unrelated rule on top
+			if r.chance(30) {
+				g.curPkg = pkg
+				if _, extra := g.optionRule(); extra != nil {
+					files[r.intn(2)].Options = append(files[r.intn(2)].Options, extra)
+				}
+			}
+			return language, files
+		}
+	}
 	maxRules := 4
 	if tier == "thorough" {
 		maxRules = 8
